@@ -20,6 +20,6 @@ rm -f /tmp/confirm-$$.log
 for f in $SD/demo/*.go; do rm -f $PKG/$(basename $f); done
 PKGS=$( (git diff --name-only | xargs -n1 dirname; echo $PKG) | sort -u | sed 's|^|./|;s|$|/...|' | tr '\n' ' ')
 echo "## existing tests with the patch: $PKGS" >> $OUT
-if go test -vet=off -count=1 -timeout 20m $PKGS > /tmp/confirm-$$.log 2>&1; then echo "EXISTING: PASS" >> $OUT; else grep -E "^(FAIL|---|ok)" /tmp/confirm-$$.log | head -20 >> $OUT; echo "EXISTING: FAIL" >> $OUT; fi
+if go test -vet=off -count=1 -timeout 20m ${EXTRA_TEST_FLAGS:-} $PKGS > /tmp/confirm-$$.log 2>&1; then echo "EXISTING: PASS" >> $OUT; else grep -E "^(FAIL|---|ok)" /tmp/confirm-$$.log | head -20 >> $OUT; echo "EXISTING: FAIL" >> $OUT; fi
 rm -f /tmp/confirm-$$.log
 grep -E "^(CLEAN|BUILD|PATCHED|EXISTING|PATCH):" $OUT | tr '\n' ' '; echo " <- $SD"
